@@ -478,7 +478,7 @@ func binop(op string, l, r val) (val, error) {
 			// a numeric string equals the number it spells; every other mixture is left open
 			a, aok := numeric(l)
 			b, bok := numeric(r)
-			if !aok || !bok || l.t == 'b' || r.t == 'b' {
+			if !aok || !bok {
 				return bad()
 			}
 			return bv((a == b) == (op == "==")), nil
